@@ -139,6 +139,13 @@ def run(ctx):
                         ivn = strip_int_casts(f, arr[0][1])
                         rec = L11.ivs().get(ivn)
                         whole = rec is not None and rec[0] is not None and rec[0].is_zero() and rec[1] == _P11.const(1) and hg[0].iv == ivn
+                        if not whole:
+                            # the subscript as a function of the iteration: 0, 1, ..., nel-1 or nel-1, ..., 0 - the same elements
+                            it_ = L11.at_iteration(pc11.val(arr[0][1]))
+                            ab2 = _aff11(it_) if it_ is not None else None
+                            if ab2 is not None and ab2[0].is_const() and ab2[1].is_const():
+                                a0, b0 = ab2[0].const_value(), ab2[1].const_value()
+                                whole = (a0, b0) in ((0, 1), (nel - 1, -1))
             except Exception:
                 whole = False
             if whole or (idx and any(const_of(bv) == nel and strict for bv, strict, sg in ub) and re.match(r'^phi', idx)):
